@@ -244,7 +244,12 @@ impl World {
     let mut txdata = Vec::new();
     let block_start_seq = m.next_seq;
     if spec.include_mempool {
-      for tx in self.drain_mempool() {
+      let mut pool = self.drain_mempool();
+      if let Some(limit) = spec.mempool_limit {
+        let rest = pool.split_off((limit as usize).min(pool.len()));
+        self.wallet_side.mempool = rest;
+      }
+      for tx in pool {
         // a broadcast transaction whose inputs were spent meanwhile is dropped
         if tx.input.iter().all(|i| m.utxos.contains_key(&i.previous_output)) {
           m.apply_tx(&tx);
